@@ -358,7 +358,23 @@ def _w2d(le90: bool):
                   flags={"cone_degree <= 90": le90})
 
 
+_RU = Source("vopy/confidence_region.py", "RectangularConfidenceRegion", "update",
+             {"mean": ("μ", "R"), "scale": ("a", "R")},
+             opaque_locals={"std": ("σ", "R", "np.sqrt(np.diag(covariance.reshape(covariance.shape[-2:])))")},
+             flags={"self.intersect_iteratively": False})
+
 SPECS: dict[str, dict] = {
+    "C14": {
+        "imports": ["VOPyVerif.Model.RegionUpdate", "VOPyVerif.Model.RealLike"],
+        "formulas": [
+            Formula("rectLower", _RU, "L", ("μ", "σ", "a"), hand="Region.rectLowerF"),
+            Formula("rectUpper", _RU, "U", ("μ", "σ", "a"), hand="Region.rectUpperF"),
+            Formula("rectCenter",
+                    Source("vopy/confidence_region.py", "RectangularConfidenceRegion", "center",
+                           {"self.lower": ("lo", "R"), "self.upper": ("hi", "R")}),
+                    "return", ("lo", "hi"), hand="Region.rectCenterF"),
+        ],
+    },
     "C12": {
         "imports": ["VOPyVerif.Model.ConeFormulas"],
         "formulas": [
